@@ -109,7 +109,10 @@ def parse_case_output(lines):
                 mix["cells"][int(w[0])] = {int(x.split("=")[0]): unhexd(x.split("=")[1]) for x in w[1:]}
             r["mix"] = mix
         elif l.startswith("CB"):
-            r["cb"] = [tuple(int(y) for y in x.split(",")) for x in l.split()[1:]]
+            r["cb"] = []
+            for x in l.split()[1:]:
+                y = x.split(",")
+                r["cb"].append(tuple(int(v) for v in y[:4]) + tuple(unhexd(v) for v in y[4:]))
         elif l.startswith("SEL "):
             parts = l.split(" | ")
             nu = int(parts[0].split()[1])
@@ -174,6 +177,18 @@ def table(res):
         return [], {}
     heads = rows[0]
     recs = [dict(zip(heads, r)) for r in rows[1:]]
+    # exact engine totals recorded by the callback, one per punched row (the punched TOTMOLE/TOT values carry the
+    # speciation's mass-balance residual; they are kept as p_<name> and cross-checked at 1e-6)
+    cb = res.get("cb", [])
+    if len(cb) == len(recs) and all(len(c) == 15 for c in cb):
+        names = ["water", "H", "O", "cb"] + ["m_" + e for e in gt.ELEMENTS]
+        for d, c in zip(recs, cb):
+            if int(d["cell"]) != c[0]:
+                continue
+            for k, nm in enumerate(names):
+                d["p_" + nm] = d.get(nm)
+                d[nm] = c[4 + k]
+            d["exact"] = True
     by = {}
     adv = any(d.get("state") == 7.0 for d in recs)
     for d in recs:
